@@ -31,7 +31,7 @@ LEVEL = "exploration"
 RULE = (
     "cases = (configuration, URI, route). URIs: all sequences of <=3 (quick) / <=4 (thorough, for the default and one "
     "two-root configuration) segments over {a.html sub .. . '' ..a.html a.html.. outside secret.html rootx root} x "
-    "separator per gap {/ // \\} x leading {'' / // \\ \\/ /\\} x trailing {'' /}; family 'climb' = prefix {'' sub .} + "
+    "separator per gap {/ // \\} x leading {'' / // \\ \\/ /\\} x trailing {'' /}; family 'climb' = prefix {'' sub . ..a.html ... ..sub} + "
     "k in 1..5 '..' + tail of <=2 segments; family 'cancel' = n names + (n-1 | n | n+1) '..' with different separators in the two runs; family 'abs' = every leading spelling + absolute path of each file of the "
     "scratch tree with / // or \\ as separator; hypothesis-drawn URIs of <=8 segments (free-form, targeted at an "
     "existing outside file, absolute) run as sequences of 1-4 steps on one lookup. Routes: get_template and "
@@ -654,7 +654,7 @@ def sweep_uris(n, seg0=None):
 
 def climb_uris():
     tails = list(sweep_tails())
-    for pre in ("", "sub", "."):
+    for pre in ("", "sub", ".", "..a.html", "...", "..sub"):  # (names that merely begin with dots are names)
         for k in range(1, 6):
             for sp in SEPS:
                 ups = sp.join([".."] * k)
@@ -912,7 +912,7 @@ def run(ctx):
     if want("families"):
         fam_cfgs = QUICK_FAM_CFGS if ctx.quick else all_cfgs()
         for cfg in fam_cfgs:
-            tasks += [dict(cfg=cfg, fam="climb", arg=[i, 4], routes=["direct", "callers"]) for i in range(4)]
+            tasks += [dict(cfg=cfg, fam="climb", arg=[i, 8], routes=["direct", "callers"]) for i in range(8)]
             tasks.append(dict(cfg=cfg, fam="abs", routes=["direct", "callers"]))
             tasks.append(dict(cfg=cfg, fam="cancel", routes=["direct", "callers"]))
     if want("callers"):
